@@ -3,7 +3,7 @@
    independently of Model.v (minibuffer.h + CPython's slice protocol). *)
 From Coq Require Import ZArith List Bool.
 Import ListNotations.
-From Cffi Require Import C19.Types C19.Gen C19.Model C19.Spec C19.Proofs.
+From Cffi Require Import C19.Types C19.Gen C19.Model C19.Spec C19.MbSem C19.Proofs C19.ProofsMb.
 Open Scope Z_scope.
 
 (* Scope of the specification (recorded reading, DESIGN.md Appendix B): C19/Spec.v is the semantics of
@@ -36,6 +36,80 @@ Theorem C19_buffer_frame : forall mem off n ops mem' outs,
   spec_run (window mem off n) ops = (window mem' off n, outs).
 Proof. exact buffer_frame. Qed.
 Print Assumptions C19_buffer_frame.
+
+(* The four sequence slots of the buffer object as they are in the source.  The bodies of mb_item,
+   mb_slice, mb_ass_item and mb_ass_slice (src/c/minibuffer.h) are translated statement by statement
+   into C19/Gen.v on every run (gen_mb_item, ..., language C19/Types.v, interpreter C19/MbSem.v: exec);
+   each computes, for ALL memories, windows, indices / bounds (any Z: negative, beyond the size,
+   left > right) and right-hand sides, exactly the function of C19/Model.v used by the history
+   theorem above: the index test, the three clamps, the length test (skipped when src_view.len < 0),
+   the exception classes, the address and count of the copy. *)
+Theorem C19_gen_mb_item : forall mem off n idx,
+  exec_item gen_mb_item mem off n idx = mb_item mem off n idx.
+Proof. exact gen_mb_item_is_model. Qed.
+Print Assumptions C19_gen_mb_item.
+
+Theorem C19_gen_mb_slice : forall mem off n left right,
+  exec_slice gen_mb_slice mem off n left right = Ok (mb_slice mem off n left right).
+Proof. exact gen_mb_slice_is_model. Qed.
+Print Assumptions C19_gen_mb_slice.
+
+Theorem C19_gen_mb_ass_item : forall mem off n idx other,
+  exec_ass_item gen_mb_ass_item mem off n idx other = mb_ass_item mem off n idx other.
+Proof. exact gen_mb_ass_item_is_model. Qed.
+Print Assumptions C19_gen_mb_ass_item.
+
+Theorem C19_gen_mb_ass_slice : forall mem off n left right other,
+  exec_ass_slice gen_mb_ass_slice mem off n left right other = mb_ass_slice mem off n left right other.
+Proof. exact gen_mb_ass_slice_is_model. Qed.
+Print Assumptions C19_gen_mb_ass_slice.
+
+(* ... so the buffer object built from the REGENERATED bodies (run_g gen_progs: mb_subscript /
+   mb_ass_subscript glue + CPython's slice protocol, calling the four translated bodies) refines the
+   bytearray specification for every history: a source edit to a bound, a clamp, the length test, an
+   exception class or the copy's address/count breaks this proof. *)
+Theorem C19_gen_buffer_history : forall mem off n ops,
+  0 <= off -> 0 <= n <= SSIZE_MAX -> off + n <= zlen mem ->
+  exists w' outs, spec_run (window mem off n) ops = (w', outs) /\ zlen w' = n /\
+                  run_g gen_progs off n mem ops = (splice mem off n w', outs).
+Proof. exact gen_buffer_history. Qed.
+Print Assumptions C19_gen_buffer_history.
+
+(* Right-hand sides that ALIAS the destination memory (another ffi.buffer / memoryview / cdata over the
+   same allocation, `ffi.buffer(p, 8)[0:4] = ffi.buffer(p + 1, 4)`): in the theorems above a source is
+   a value, i.e. its bytes are read before any byte is written (what Python's `w[a:b] = bytes(w[c:d])`
+   means).  The copy primitive of mb_ass_slice is regenerated (copy_of gen_mb_ass_slice); it is memmove
+   since 2519df6 (finding ass_slice_memcpy_overlap, fixed), so for EVERY pair of ranges inside the
+   memory, overlapping or not, the destination receives the OLD source bytes and nothing else changes
+   (py_memmove, Spec.v; frame and length: C19_memmove).  If the source goes back to memcpy the first
+   two theorems no longer compile; memcpy is defined for disjoint ranges only (C11 7.24.2.1: undefined
+   otherwise, modelled as OutOfModel = no claim): C19_alias_copy_defined.  The harness runs the
+   overlapping stream on the real code natively and under AddressSanitizer. *)
+Theorem C19_gen_ass_slice_copy_is_memmove : copy_of gen_mb_ass_slice = Some Memmove.
+Proof. exact gen_ass_slice_copy_is_memmove. Qed.
+Print Assumptions C19_gen_ass_slice_copy_is_memmove.
+
+Theorem C19_gen_alias_copy_total : forall mem dest src n,
+  0 <= dest -> 0 <= src -> 0 <= n -> src + n <= zlen mem -> dest + n <= zlen mem ->
+  gen_copy_alias mem dest src n = Ok (py_memmove mem dest src n).
+Proof. exact gen_alias_copy_total. Qed.
+Print Assumptions C19_gen_alias_copy_total.
+
+Theorem C19_alias_copy_defined : forall f mem dest src n,
+  0 <= dest -> 0 <= src -> 0 <= n -> src + n <= zlen mem -> dest + n <= zlen mem ->
+  f = Memmove \/ disjoint dest src n = true ->
+  copy_alias f mem dest src n = Ok (py_memmove mem dest src n).
+Proof. exact alias_copy_defined. Qed.
+Print Assumptions C19_alias_copy_defined.
+
+Theorem C19_gen_ass_slice_has_copy : exists f, copy_of gen_mb_ass_slice = Some f.
+Proof. exact gen_ass_slice_has_copy. Qed.
+Print Assumptions C19_gen_ass_slice_has_copy.
+
+Example C19_alias_memcpy_overlap_undefined :
+  copy_alias Memcpy [1; 2; 3; 4; 5] 0 1 3 = Err OutOfModel /\
+  copy_alias Memmove [1; 2; 3; 4; 5] 0 1 3 = Ok [2; 3; 4; 4; 5].
+Proof. exact copy_alias_memcpy_overlap_undefined. Qed.
 
 (* CPython's PySlice_Unpack + PySlice_AdjustIndices compute slice.indices() for step 1 / None, for
    arbitrary Python ints (also beyond Py_ssize_t) *)
